@@ -377,6 +377,13 @@ func (fa *FA) closeFacts(facts []*Lin, neq []*Lin, invs []*Inv, goal *Lin) []*Li
 // under the extra assumptions of c.
 func (fa *FA) entailsAt(goal *Lin, b *ssa.BasicBlock, c *pctx) bool {
 	goal = normIneq(goal)
+	// an assumption that is a false constant makes the query vacuous (e.g. "err == nil" at a return
+	// of a value known to be non-nil)
+	for _, a := range c.assume {
+		if na := normIneq(a); na.isConst() && na.C.Sign() > 0 {
+			return true
+		}
+	}
 	if goal.isConst() {
 		return goal.C.Sign() <= 0
 	}
